@@ -293,3 +293,29 @@ def show(e, depth=0):
     if tag in ("cycle", "undef", "partial"):
         return f"{tag}:{e[2] or e[1]}"
     return tag
+
+
+def deep_leaves(F, e, depth=2, _seen=None):
+    """leaves(e) plus, for every crate-local function called in `e` and every closure value appearing in `e`, the leaves of
+    what that function / closure returns (recursively, `depth` levels).  Lets a lineage rule see through a getter or through
+    the closure handed to map / and_then.  Parameters of the callee are reported as they are named there."""
+    out = set(leaves(e))
+    if depth <= 0:
+        return out
+    _seen = _seen or set()
+    keys = set()
+    for n in walk(e):
+        if n[0] == "call" and n[1] in F.funcs:
+            keys.add(n[1])
+        elif n[0] == "agg" and n[1] == "closure" and n[2] in F.funcs:
+            keys.add(n[2])
+    for k in keys - _seen:
+        g = F.funcs[k]
+        if g.generated or g.nblocks > 80:
+            continue
+        try:
+            re_ = resolve_place(g, {"l": 0, "p": []})
+        except Exception:
+            continue
+        out |= deep_leaves(F, re_, depth - 1, _seen | {k})
+    return out
